@@ -121,6 +121,25 @@ fn scenarios(out: &mut NdjsonWriter) {
         }
         r.catch_up_and_fresh();
     }
+    // G: a spend scanned before its receipt (tip first) lives only in the nullifier map, under its block; the wallet is
+    // rewound to EXACTLY that block (which stays scanned and is never scanned again); the receipt is scanned afterwards
+    for &pool in &[Pool::Sapling, Pool::Orchard] {
+        for with_fork in [false, true] {
+            id += 1;
+            let mut r = Run::new(out, 4000 + id, false, json!(format!("G {} fork={with_fork}", pool.code())));
+            let n = r.recv(pool, 50_000, false);       // block 1
+            r.recv(pool, 37_000, false);               // block 2
+            r.empties(1);                              // block 3
+            r.spend(n, 0, pool);                       // block 4 spends the note of block 1
+            r.empties(2);                              // blocks 5, 6
+            r.tip_top();
+            r.scan(r.abs(4), 3);                       // tip first: the spend is remembered, the note unknown
+            r.trunc(r.abs(4), with_fork);              // back to exactly the spending block
+            if with_fork { r.empties(2); r.tip_top(); }
+            r.scan(r.abs(1), 3);                       // now the receipt
+            r.catch_up_and_fresh();
+        }
+    }
     // F: a receipt orphaned by a rewind is mined again at a DIFFERENT position of its pool's tree (outputs of other
     // transactions now precede it; a Sapling nullifier depends on the position), and is spent afterwards
     for &pool in &[Pool::Sapling, Pool::Orchard] {
